@@ -1,5 +1,6 @@
 import NanoVerif.Props.C01
 import NanoVerif.Proofs.ColrSvg
+import NanoVerif.Model.Regroup
 /-
 C02 — OT-SVG glyph documents render the same picture as their sources (per-element theorems).
 -/
@@ -81,11 +82,6 @@ theorem linear_p3_sound (g : LinGrad) (x : Pt) (hc : cross g.p0 g.p1 g.p2 ≠ 0)
   have ex : ∀ a k : Q, a + k - a = k := by intro a k; ring
   simp only [ex]
   rw [key]
-
-/-- `_ensure_groups_grouped_in_glyph_order` (svg.py:602): glyphs not in any group keep their relative
-order, then each group in turn. -/
-def regroup (old : List String) (groups : List (List String)) : List String :=
-  old.filter (fun g => !groups.flatten.contains g) ++ groups.flatten
 
 /-- **C02.7a** each group occupies a contiguous block, in group order, after the untouched glyphs -/
 theorem regroup_contiguous (old : List String) (pre post : List (List String)) (grp : List String) :
